@@ -9,11 +9,21 @@ replays the same histories on the real code and diffs, after every step, which
 fingerprints changed, and at the end the bucket/slice layout (len, cap, sharing of
 backing arrays).
 
+Sharing between goroutines (§6 generic, §7 for `Heap.step`): the generic interleaving
+theorem is instantiated with the step function the driver runs — every goroutine's
+step is `Heap.step` on the shared heap followed by its own allocations — and its
+footprint hypothesis is discharged from `step_writes_only` (`Lemmas/d20Conc.lean`).
+The driver op `heap.conc` runs the same semantics against REAL goroutines
+(`harness/c20_dconc.go`).
+
 What is NOT proved here, and cannot be in this model: anything about the Go memory
-model or scheduler.  `interleaving_equiv_sequential` is a theorem about step
-semantics with footprints; that the footprint of each real API call is the model's
-(`wset`, "allocates, never writes what exists") is supported by the correspondence
-runs and by the `-race` worker of the thorough tier — evidence, not proof.
+model or scheduler; that goroutines allocate disjoint objects (the arenas of §7 — the
+one-heap variant `shared_heap_untouched` does without, but only for the shared part;
+that the two variants print the same is CHECKED by the driver on every `heap.conc`
+case, not proved); that the footprint of each real API call is the model's (`wset`,
+"allocates, never writes what exists") — supported by the correspondence runs and by
+the `-race` worker (short run in the quick tier, long in the thorough tier):
+evidence, not proof.
 -/
 import CtyModel.Lemmas.HeapInvF
 import CtyModel.Lemmas.HeapEscape
@@ -203,6 +213,22 @@ theorem pathSetList_counterexample :
     respectfulRun {} pathSetListPre = true ∧
     respectful (run {} pathSetListPre) (.caller (.setStep 5 0 "zz")) = false ∧
     goChanges pathSetListPre 3 (.caller (.setStep 5 0 "zz")) = true := by decide
+
+/-- `p := Path{}.GetAttr("a").GetAttr("b"); s := NewPathSet(); s.AddAllSteps(p);
+l := s.List(); q := l[0]` — `q` is the member `p[:1]`: `len 1, cap 2`, over `p`'s array -/
+def pathSetAddAllStepsPre : List HeapOp :=
+  [.caller .nilPath, .api (.pathGetAttr 0 "a"), .api (.pathGetAttr 1 "b"), .api .newPathSet,
+   .api (.psAddAllSteps 3 2 [1, 2]), .api (.psList 3 [0, 1]), .caller (.elemPath 4 0)]
+
+/-- **`AddAllSteps` files every prefix `path[:i]` as a slice over the caller's array**
+(the path is retained as by `Add`, documented) — so the members of one set SHARE a
+backing array, the shorter ones with spare capacity: `append(q, step)` on the listed
+member `a` writes no cell of `a` itself, yet turns the member `a.b` into `a.zz`. -/
+theorem pathSetAddAllSteps_counterexample :
+    respectfulRun {} pathSetAddAllStepsPre = true ∧
+    (run {} pathSetAddAllStepsPre).gos[5]! = .slice 1 0 1 2 ∧
+    respectful (run {} pathSetAddAllStepsPre) (.caller (.appendStep 5 "zz")) = false ∧
+    goChanges pathSetAddAllStepsPre 3 (.caller (.appendStep 5 "zz")) = true := by decide
 
 /-- Walk over `list(list(list(list("x","y"))))`, four callback invocations deep: the
 path of `[0][0][0][0]` is register 9 and has `len 4, cap 4`, sharing its array with
@@ -587,19 +613,19 @@ theorem interleaving_prefix {V R : Type} (prog : Nat → List (Act V R))
 correspondence harness diffs against go-cty (`Lemmas/d20Conc.lean`). -/
 
 open Conc in
-/-- **Every API entry point of the model but seven has an empty write set** — in every
+/-- **Every API entry point of the model but eight has an empty write set** — in every
 state, whatever its arguments: constructors, accessors, operation methods, `Copy`,
 `Values`, `Has`, `Length`, path helpers, `PathSet.List/Has`, the first callback
-invocation of `Walk`.  The seven: `NumberVal(*big.Float)` and `cty.Tuple([]Type)` (take
+invocation of `Walk`.  The eight: `NumberVal(*big.Float)` and `cty.Tuple([]Type)` (take
 ownership of the caller's object — documented), `ValueSet.Add/Remove`,
-`PathSet.Add/Remove` (mutating methods of helper sets, documented as not
+`PathSet.Add/AddAllSteps/Remove` (mutating methods of helper sets, documented as not
 concurrency-safe) and the continuation of a running `Walk` (appends to that walk's
 own path buffer). -/
 theorem api_write_set_empty (c : Api) :
     (readOnlyApi c = true ∧ ∀ st x, wset st (.api c) x = false) ∨
     (∃ g, c = .numberVal g) ∨ (∃ g, c = .tupleType g) ∨ (∃ g v h, c = .vsAdd g v h) ∨
     (∃ g v h, c = .vsRemove g v h) ∨ (∃ g p h, c = .psAdd g p h) ∨ (∃ g p h, c = .psRemove g p h) ∨
-    (∃ w, c = .walkNext w) := by
+    (∃ g p hs, c = .psAddAllSteps g p hs) ∨ (∃ w, c = .walkNext w) := by
   cases hc : readOnlyApi c with
   | true => exact .inl ⟨rfl, wset_readOnly hc⟩
   | false =>
@@ -717,6 +743,41 @@ example :
     | 0 => decide
     | 1 => decide
     | n + 2 => rfl
+
+open Conc in
+/-- the statement WITHOUT the guard `sharedSafe` — `k` goroutines run the model's
+unguarded `step` over one heap and get back the answers (`outs`) of running alone —
+is false of go-cty, by design: helper sets are mutable and not concurrency-safe -/
+def GoroutinesUnconditionally : Prop :=
+  ∀ (st0 : St) (progs : Nat → List HeapOp) (k : Nat) (sched : List Nat) (i : Nat), i < k →
+    ((List.range k).all fun j => ((Global.execWith step (Global.start st0 progs) sched).todo j).isEmpty) = true →
+    Global.answers ((Global.execWith step (Global.start st0 progs) sched).out i) = Global.answers (stepTrace st0 (progs i))
+
+/-- `a, b := "a", "b"; s := cty.NewValueSet(cty.String)` -/
+def sharedSetState : St :=
+  run {} [.api (.stringVal "a"), .api (.stringVal "b"), .api (.newValueSet (.prim "string"))]
+
+/-- each goroutine: `s.Add(own string); s.Length()` on the SHARED set -/
+def sharedSetProgs : Nat → List HeapOp
+  | 0 => [.api (.vsAdd 0 0 1), .api (.vsLength 0)]
+  | 1 => [.api (.vsAdd 0 1 2), .api (.vsLength 0)]
+  | _ => []
+
+open Conc in
+/-- **Two goroutines that `Add` to one shared `ValueSet`** (documented: "Set mutations
+are not concurrency-safe"; in the model each `Add` is atomic, so this is the mildest
+form of the misuse): under the schedule `0,1,0,1` goroutine 0 reads length 2, alone it
+reads 1 — and `sharedSafe` rejects exactly these two steps.  The race worker shows the
+real thing: `-race` reports the concurrent `Add`s (probe
+`race-detector-reports-concurrent-ValueSet.Add`). -/
+theorem goroutines_shared_set_counterexample :
+    ¬ GoroutinesUnconditionally ∧
+    sharedSafe sharedSetState.mem.length sharedSetState (.api (.vsAdd 0 0 1)) = false ∧
+    sharedSafe sharedSetState.mem.length sharedSetState (.api (.vsLength 0)) = true := by
+  refine ⟨fun h => ?_, by decide, by decide⟩
+  have := h sharedSetState sharedSetProgs 2 [0, 1, 0, 1] 0 (by decide) (by decide)
+  revert this
+  decide
 
 open Conc in
 /-- **One heap, the model's own allocator: no schedule ever writes the shared heap.**
